@@ -1,10 +1,24 @@
 import Bt.Engine.Ops
+import Bt.Proofs.SecUpdate
+import Bt.Proofs.C01Defs
+import Bt.Proofs.Balanced
+import Bt.Proofs.BalancedAll
+import Bt.Proofs.QuietOps
+import Bt.Proofs.Rows
+import Bt.Proofs.Reach
+import Bt.Proofs.Marks
+import Bt.Proofs.IntWorld
+import Bt.Proofs.ExampleFacts
+import Mathlib.Algebra.Order.Ring.Cast
+import Mathlib.Algebra.Order.Group.Unbundled.Int
+import Bt.Proofs.Examples
 import Mathlib.Algebra.Order.Field.Basic
 import Mathlib.Tactic.Ring
 import Mathlib.Tactic.Linarith
 /-! C01 — balance-sheet identity (property theorems only; helper lemmas live in `Bt.Proofs.*`). -/
 namespace Bt.C01
 open Bt
+set_option linter.unusedSectionVars false
 
 variable {K : Type} [Field K] [LinearOrder K] [IsStrictOrderedRing K] [HasFloor K]
 
@@ -29,5 +43,631 @@ theorem secMarkValue_nan_open_raises (cfg : Cfg K) (s : SecData K)
     (hp : s.price = none) (hz : isZero cfg.tol s.position = false) :
     secMarkValue cfg s = .error Err.nanPriceOpenPosition := by
   unfold secMarkValue; simp [hp, hz]; rfl
+
+/-- (1) `SecurityBase.update` (any of the five classes), when it is not the early return, marks the
+    security: `value = position × price × multiplier`; with a missing price the position is flat
+    (within `TOL`) and the value is 0.  Notional: plain = value, fixed-income/coupon = position,
+    hedge classes = 0. -/
+theorem secUpdate_marks (cfg : Cfg K) (d : Nat) (s s' : SecData K)
+    (h : secUpdate cfg d s = .ok s') (he : secEarly d s = false) :
+    (∀ p, s'.price = some p → s'.value = s'.position * p * s'.mult) ∧
+    (s'.price = none → s'.value = 0 ∧ isZero cfg.tol s'.position = true) ∧
+    (s'.kind = .plain → s'.notl = s'.value) ∧
+    ((s'.kind = .fi ∨ s'.kind = .coupon) → s'.notl = s'.position) ∧
+    ((s'.kind = .hedge ∨ s'.kind = .couponHedge) → s'.notl = 0) := by
+  have hf := secUpdate_frame h
+  obtain ⟨s1, h1, ht⟩ := secUpdate_base h
+  have fr := secBaseUpdate_fresh he h1
+  have hm := secMarkValue_spec cfg _ _ fr.marks
+  simp only [secRecordPos_price, secRecordPos_position, secDateChange_position, secRecordPos_mult,
+    secDateChange_mult] at hm
+  rw [← fr.price, ← ht.price, ← ht.value, ← hf.position, ← hf.mult] at hm
+  refine ⟨?_, ?_, ?_, ?_, ?_⟩
+  · intro p hp
+    rcases hm with ⟨q, hq, hv⟩ | ⟨hn, _, _⟩
+    · rw [hp] at hq; cases hq; exact hv
+    · rw [hp] at hn; cases hn
+  · intro hp
+    rcases hm with ⟨q, hq, _⟩ | ⟨_, hv, hz⟩
+    · rw [hp] at hq; cases hq
+    · exact ⟨hv, hz⟩
+  · intro hk
+    rw [hf.kind] at hk
+    have hb := secUpdate_notl_plain h hk
+    have fr' := secBaseUpdate_fresh he hb
+    exact fr'.notl
+  · rw [hf.kind]; exact (secUpdate_notl_kind h).1
+  · rw [hf.kind]; exact (secUpdate_notl_kind h).2
+
+/-- the hypotheses hold for a security with 3 units at price 5, multiplier 2 (value 30) -/
+example : ∃ s', secUpdate Ex.cfg 0 (Ex.sec "a" .plain 3) = .ok s' ∧ secEarly 0 (Ex.sec "a" .plain 3) = false ∧
+    s'.value = 30 ∧ s'.price = some 5 :=
+  ⟨_, rfl, by decide, by decide +kernel, by decide +kernel⟩
+
+/-- (2) The totals the children loop of `StrategyBase.update` hands back: the initial accumulator plus, over
+    the children that were visited (a security whose `needupdate` is false is skipped), the updated
+    children's values, absolute notionals and (when bid/offer is on) bid/offer paid; the cash parked on the
+    security children is collected when the date is new.  `visSum` pairs input and output children. -/
+theorem updKids_acc (cfg : Cfg K) (d : Nat) (newpt bo : Bool) (kids kids' : List (Node K)) (acc acc' : Acc K)
+    (h : updKids cfg d newpt bo kids acc = .ok (kids', acc')) :
+    kids'.length = kids.length ∧
+    acc'.val = acc.val + visSum Node.value kids kids' ∧
+    acc'.notl = acc.notl + visSum (fun k => |k.notl|) kids kids' ∧
+    acc'.bo = (if bo then acc.bo + visSum Node.bidofferPaid kids kids' else acc.bo) ∧
+    acc'.coupons = acc.coupons + (if newpt then parkedCash kids else 0) :=
+  updKids_acc_aux kids acc kids' acc' h
+
+/-- three children (one skipped, one sub-strategy): value 10 + 30 + 0 + 14, notional 30 + 1 -/
+example : ∃ r, updKids Ex.cfg 0 true false Ex.kids ⟨10, 0, 0, 0⟩ = .ok r ∧
+    (r.2.val == 54 && r.2.notl == 31) = true :=
+  Ex.check_ok (by decide +kernel)
+
+/-- (3) `StrategyBase.update(d)` on a strategy: with `V = cash + Σ visited children's values` and
+    `N = Σ visited children's |notional|` (`visSum` pairs the children before/after; a security whose
+    `needupdate` was false is not visited), the stored value is `V` — exactly whenever the date is new, and
+    otherwise either exactly or within `TOL` (the code skips the write when neither total moved by `TOL`);
+    likewise the notional and `N`; every child that is not skipped afterwards has weight
+    `childWeight` (value / V, notional / N for a fixed-income strategy, 0 when `isZero`); the cash is the old
+    cash plus the swept coupons; and the same holds at every sub-strategy below (`Balanced`). -/
+theorem updNode_balanced (cfg : Cfg K) (d : Nat) (sd sd' : StratData K) (kids kids' : List (Node K))
+    (h : updNode cfg d (.strat sd kids) = .ok (.strat sd' kids')) :
+    (sd'.value = stratV sd' kids kids' ∨ |sd'.value - stratV sd' kids kids'| < cfg.tol) ∧
+    (sd.now ≠ some d → sd'.value = stratV sd' kids kids') ∧
+    (sd'.notl = stratN kids kids' ∨ |sd'.notl - stratN kids kids'| < cfg.tol) ∧
+    (sd.now ≠ some d → sd'.notl = stratN kids kids') ∧
+    (∀ k' ∈ kids', k'.skipped = false →
+      k'.weight = childWeight cfg sd'.fixedIncome (stratV sd' kids kids') (stratN kids kids') k') ∧
+    Balanced cfg d (.strat sd kids) (.strat sd' kids') := by
+  have hb := updNode_balanced_aux h
+  have hl : LocalBal cfg d sd kids sd' kids' := by
+    unfold Balanced at hb; simp only [TreeRel] at hb; exact hb.1
+  refine ⟨?_, ?_, ?_, ?_, hl.weights, hb⟩
+  · rcases hl.value with h1 | ⟨_, h1⟩
+    · exact Or.inl h1
+    · exact Or.inr h1
+  · intro hne
+    rcases hl.value with h1 | ⟨h0, _⟩
+    · exact h1
+    · exact absurd h0 hne
+  · rcases hl.notl with h1 | ⟨_, h1⟩
+    · exact Or.inl h1
+    · exact Or.inr h1
+  · intro hne
+    rcases hl.notl with h1 | ⟨h0, _⟩
+    · exact h1
+    · exact absurd h0 hne
+
+/-- every node, every depth: `update` makes the tree `Balanced` -/
+theorem updNode_balanced_tree (cfg : Cfg K) (d : Nat) (n n' : Node K) (h : updNode cfg d n = .ok n') :
+    Balanced cfg d n n' :=
+  updNode_balanced_aux h
+
+/-- a two-level tree with a skipped security: root value 54 = 10 + 30 + 14, sub-strategy 14 = 4 + 10 -/
+example : ∃ n', updNode Ex.cfg 0 Ex.tree = .ok n' ∧ (n'.value == 54) = true :=
+  Ex.check_ok (by decide +kernel)
+
+/-- The reading of (3) "every *visited* child's weight is `childWeight`" is FALSE of the model (and of the code):
+    a visited security that `update` turns quiet (`needupdate := false` because |weight| < TOL and
+    |position| < TOL) is skipped by the weight loop and keeps its old weight.  Witness (tol = 1/2): buy one
+    unit (weight 1/11), sell it, update: value 0, `childWeight` 0, weight still 1/11 — so the children's
+    weights plus the cash fraction sum to 12/11, not 1. -/
+theorem visited_child_weight_counterexample :
+    ∃ w sd' s', Ex.dustRun = .ok w ∧ refresh Ex.cfg w = .ok { root := .strat sd' [.sec s'], stale := false } ∧
+      w.stale = true ∧ s'.value = 0 ∧ s'.weight = 1/11 ∧ sd'.value = 110 ∧ sd'.capital = 110 ∧
+      s'.weight + sd'.capital / sd'.value ≠ 1 := by
+  have h : Ex.check (Ex.dustRun.bind fun w => (refresh Ex.cfg w).map fun w' => (w, w')) (fun p =>
+      p.1.stale && !p.2.stale && (match p.2.root with
+        | .strat sd' [.sec s'] => s'.value == 0 && s'.weight == 1/11 && sd'.value == 110 && sd'.capital == 110
+        | _ => false)) = true := by decide +kernel
+  obtain ⟨⟨w, w'⟩, hr, hp⟩ := Ex.check_ok h
+  obtain ⟨w1, hw1, hr⟩ := Except.bind_eq_ok hr
+  obtain ⟨w2, hw2, hr⟩ := Except.map_eq_ok hr
+  cases hr
+  obtain ⟨r, st⟩ := w'
+  simp only [Bool.and_eq_true, Bool.not_eq_true'] at hp
+  obtain ⟨⟨hs1, hs2⟩, hm⟩ := hp
+  subst hs2
+  clear h hr
+  split at hm
+  · simp only [Bool.and_eq_true, beq_iff_eq] at hm
+    obtain ⟨⟨⟨h1, h2⟩, h3⟩, h4⟩ := hm
+    refine ⟨w, _, _, hw1, hw2, hs1, h1, h2, h3, h4, ?_⟩
+    rw [h2, h3, h4]; norm_num
+  · cases hm
+
+/-! ### (4) the invariant `Quiet`
+
+`Quiet n`: every security of `n` with `needupdate = false` has `position = 0`, `value = 0`, `notl = 0`.
+`NoDust cfg n`: every security's position is either exactly zero or at least `TOL` in size. -/
+
+/-- no dust with whole-unit positions and `TOL ≤ 1` -/
+theorem noDust_of_integer (cfg : Cfg K) (htol : cfg.tol ≤ 1) (s : SecData K) (z : ℤ) (hz : s.position = z) :
+    SecNoDust cfg s := by
+  intro h
+  rw [isZero_iff, hz] at h
+  have h1 : |(z : K)| < 1 := lt_of_lt_of_le h htol
+  rw [← Int.cast_abs, ← Int.cast_one, Int.cast_lt, Int.abs_lt_one_iff] at h1
+  rw [hz, h1]; simp
+
+example : SecNoDust Ex.cfg (Ex.sec "a" .plain 3) :=
+  noDust_of_integer Ex.cfg (by decide +kernel) _ 3 (by decide +kernel)
+
+/-- `update` preserves `Quiet` (and the positions, hence `NoDust`) -/
+theorem quiet_updNode (cfg : Cfg K) (d : Nat) (n n' : Node K) (h : updNode cfg d n = .ok n')
+    (hq : Quiet n) (hn : NoDust cfg n) : Quiet n' ∧ NoDust cfg n' :=
+  updNode_quiet h hq hn
+
+/-- the example tree is quiet and dust-free (security `b` is skipped: flat, no value), and stays so -/
+example : ∃ n', updNode Ex.cfg 0 Ex.tree = .ok n' ∧ Quiet n' ∧ NoDust Ex.cfg n' :=
+  let ⟨n', h⟩ := Ex.tree_upd0
+  ⟨n', h, quiet_updNode Ex.cfg 0 _ _ h Ex.tree_quiet Ex.tree_noDust⟩
+
+theorem quiet_secTransactCore (cfg : Cfg K) (comm : K → K → K) (s s' : SecData K) (q : K) (custom : Option K)
+    (a : Option (Adj K)) (h : secTransactCore cfg comm s q custom = .ok (s', a)) (hq : SecQuiet s) :
+    SecQuiet s' :=
+  secTransactCore_quiet h hq
+
+example : ∃ r, secTransactCore Ex.cfg (fun _ _ => 0) { Ex.sec "a" .plain 3 with price := some 5 } 2 none = .ok r ∧
+    (r.1.position == 5 && r.1.needupdate) = true :=
+  Ex.check_ok (by decide +kernel)
+
+theorem quiet_allocNode (cfg : Cfg K) (pn : Option Nat) (comm : K → K → K) (amount : K) (n : Node K)
+    (r : Node K × List (Adj K)) (h : allocNode cfg pn comm amount n = .ok r)
+    (hq : Quiet n) (hn : NoDust cfg n) : Quiet r.1 :=
+  allocNode_quiet h hq hn
+
+/-- allocate 20 into the updated example tree (pushed down by the weights) -/
+example : ∃ r, ((updNode Ex.cfg 0 Ex.tree).bind fun n => allocNode Ex.cfg (some 0) (fun _ _ => 0) 20 n) = .ok r ∧
+    (r.1.value == 54) = true :=
+  Ex.check_ok (by decide +kernel)
+
+example : ∃ n' r, updNode Ex.cfg 0 Ex.tree = .ok n' ∧ allocNode Ex.cfg (some 0) (fun _ _ => 0) 20 n' = .ok r ∧
+    Quiet r.1 := by
+  obtain ⟨r, h, _⟩ := Ex.check_ok
+    (x := (updNode Ex.cfg 0 Ex.tree).bind fun n => allocNode Ex.cfg (some 0) (fun _ _ => 0) 20 n)
+    (p := fun _ => true) (by decide +kernel)
+  obtain ⟨n', h1, h2⟩ := Except.bind_eq_ok h
+  have hq := quiet_updNode Ex.cfg 0 _ _ h1 Ex.tree_quiet Ex.tree_noDust
+  exact ⟨n', r, h1, h2, quiet_allocNode _ _ _ _ _ _ h2 hq.1 hq.2⟩
+
+theorem quiet_transNode (cfg : Cfg K) (pn : Option Nat) (comm : K → K → K) (q : K) (custom : Option K)
+    (n : Node K) (r : Node K × List (Adj K)) (h : transNode cfg pn comm q custom n = .ok r)
+    (hq : Quiet n) (hn : NoDust cfg n) : Quiet r.1 :=
+  transNode_quiet h hq hn
+
+/-- transact 2 units into security `a` (refreshed at the parent's date 0 first) -/
+example : ∃ r, transNode Ex.cfg (some 0) (fun _ _ => 0) 2 none (.sec (Ex.sec "a" .plain 3)) = .ok r ∧
+    (match r.1 with | .sec s => s.position == 5 && s.value == 30 | _ => false) = true :=
+  Ex.check_ok (by decide +kernel)
+
+theorem quiet_flattenStrat (cfg : Cfg K) (sd : StratData K) (kids : List (Node K))
+    (r : StratData K × List (Node K)) (h : flattenStrat cfg sd kids = .ok r)
+    (hq : Quiet (.strat sd kids)) (hn : NoDust cfg (.strat sd kids)) : Quiet (.strat r.1 r.2) :=
+  flattenStrat_quiet h hq hn
+
+/-- liquidate the children of the updated example tree: 54 of cash -/
+example : ∃ r, ((updNode Ex.cfg 0 Ex.tree).bind fun n =>
+      match n with
+      | .strat sd kids => flattenStrat Ex.cfg sd kids
+      | .sec _ => .error Err.badPath) = .ok r ∧ (r.1.capital == 54) = true :=
+  Ex.check_ok (by decide +kernel)
+
+theorem quiet_kidsWeights (cfg : Cfg K) (fi : Bool) (val notl : K) (kids : List (Node K))
+    (h : AllSecsKids SecQuiet kids) : AllSecsKids SecQuiet (kidsWeights cfg fi val notl kids) :=
+  kidsWeights_quiet cfg fi val notl kids h
+
+example : AllSecsKids SecQuiet (kidsWeights Ex.cfg false 54 31 Ex.kids) :=
+  quiet_kidsWeights _ _ _ _ _ (by have := Ex.tree_quiet; simpa [Quiet, Ex.tree] using this)
+
+/-- an operation applied at a path preserves `Quiet` if it does so at the addressed node -/
+theorem quiet_modAt (cfg : Cfg K) (f : Option (StratData K) → Node K → Except Err (OpRes K))
+    (hf : ∀ par n r, Quiet n → NoDust cfg n → f par n = .ok r → Quiet r.1)
+    (path : List Nat) (par : Option (StratData K)) (n : Node K) (r : OpRes K)
+    (hq : Quiet n) (hn : NoDust cfg n) (h : modAt f path par n = .ok r) : Quiet r.1 := by
+  have ha := AllSecs.and.1 n hq hn
+  refine modAt_allSecs (A := SecQD cfg) (B := SecQuiet) (fun _ h => h.1) ?_ path par n r ha h
+  intro par n r ha h
+  exact hf par n r ((AllSecs.mono (fun _ h => h.1)).1 n ha) ((AllSecs.mono (fun _ h => h.2)).1 n ha) h
+
+/-- updating the sub-strategy at path [2] in place -/
+example : ∃ r, modAt (fun _ n => (updNode Ex.cfg 0 n).map fun n' => (n', [], true)) [2] none Ex.tree = .ok r ∧
+    Quiet r.1 :=
+  let ⟨r, h, _⟩ := Ex.check_ok
+    (x := modAt (fun _ n => (updNode Ex.cfg 0 n).map fun n' => ((n', [], true) : OpRes Rat)) [2] none Ex.tree)
+    (p := fun _ => true) (by decide +kernel)
+  ⟨r, h, quiet_modAt Ex.cfg _ (fun _ n r hq hn h => by
+      obtain ⟨n', hn', rfl⟩ := Except.map_eq_ok h
+      exact (quiet_updNode Ex.cfg 0 n n' hn' hq hn).1) [2] none _ r Ex.tree_quiet Ex.tree_noDust h⟩
+
+/-- Under `Quiet` the sums of (3) range over ALL children: after `update`, at every strategy of the tree,
+    value = cash + Σ children's values (exactly, or within `TOL` when the write was skipped), notional =
+    Σ |children's notionals|, and every child that is not skipped has weight `childWeight` of those totals
+    (`BalancedAll`); at the updated node itself the equality is exact when the date is new. -/
+theorem updNode_balanced_all (cfg : Cfg K) (d : Nat) (n n' : Node K) (h : updNode cfg d n = .ok n')
+    (hq : Quiet n) (hn : NoDust cfg n) :
+    BalancedAll cfg n' ∧
+    (∀ sd kids sd' kids', n = .strat sd kids → n' = .strat sd' kids' → sd.now ≠ some d →
+      sd'.value = sd'.capital + sumOf Node.value kids' ∧ sd'.notl = sumOf (fun k => |k.notl|) kids') := by
+  refine ⟨updNode_balancedAll_aux h hq hn, ?_⟩
+  rintro sd kids sd' kids' rfl rfl hne
+  have hr := updNode_updRel h
+  have ha := AllSecs.and.1 _ hq hn
+  simp only [UpdRel, TreeRel, AllSecs_strat] at hr ha
+  obtain ⟨hV, hN⟩ := hr.1.all hr.2 ha
+  rcases hr.1.both with ⟨h1, h2⟩ | ⟨h0, _⟩
+  · exact ⟨by rw [h1, hV]; rfl, by rw [h2, hN]; rfl⟩
+  · exact absurd h0 hne
+
+example : ∃ n', updNode Ex.cfg 0 Ex.tree = .ok n' ∧ (n'.value == 54 && n'.notl == 31) = true :=
+  Ex.check_ok (by decide +kernel)
+
+example : ∃ n', updNode Ex.cfg 0 Ex.tree = .ok n' ∧ BalancedAll Ex.cfg n' :=
+  let ⟨n', h⟩ := Ex.tree_upd0
+  ⟨n', h, (updNode_balanced_all Ex.cfg 0 _ _ h Ex.tree_quiet Ex.tree_noDust).1⟩
+
+/-! ### (5) weights sum to one -/
+
+/-- Market-value strategy after `update`, value just written (`value = cash + Σ children`, e.g. any new
+    date) and not `isZero`: the weights of the children that are not skipped, plus the cash fraction, sum
+    to one.  (Skipped securities keep whatever weight — below `TOL` in size — they had when they went
+    quiet, see `visited_child_weight_counterexample`; if those are zero the sum over all children is one:
+    `weights_sum_one_all`.) -/
+theorem weights_sum_one (cfg : Cfg K) (d : Nat) (sd sd' : StratData K) (kids kids' : List (Node K))
+    (h : updNode cfg d (.strat sd kids) = .ok (.strat sd' kids'))
+    (hq : Quiet (.strat sd kids)) (hn : NoDust cfg (.strat sd kids)) (htol : 0 < cfg.tol)
+    (hmv : sd'.fixedIncome = false) (hw : sd'.value = sd'.capital + sumOf Node.value kids')
+    (hnz : isZero cfg.tol sd'.value = false) :
+    sumOf (fun k => if k.skipped then 0 else k.weight) kids' + sd'.capital / sd'.value = 1 := by
+  have hb := updNode_balancedAll_aux h hq hn
+  have hq' := (updNode_quiet h hq hn).1
+  simp only [BalancedAll, TreeAll] at hb
+  simp only [Quiet, AllSecs_strat] at hq'
+  exact weights_sum_one_aux hb.1 hq' hmv hw hnz htol
+
+/-- on a new date the value is always written -/
+theorem weights_sum_one_newdate (cfg : Cfg K) (d : Nat) (sd sd' : StratData K) (kids kids' : List (Node K))
+    (h : updNode cfg d (.strat sd kids) = .ok (.strat sd' kids'))
+    (hq : Quiet (.strat sd kids)) (hn : NoDust cfg (.strat sd kids)) (htol : 0 < cfg.tol)
+    (hmv : sd'.fixedIncome = false) (hnew : sd.now ≠ some d) (hnz : isZero cfg.tol sd'.value = false) :
+    sumOf (fun k => if k.skipped then 0 else k.weight) kids' + sd'.capital / sd'.value = 1 :=
+  weights_sum_one cfg d sd sd' kids kids' h hq hn htol hmv
+    ((updNode_balanced_all cfg d _ _ h hq hn).2 sd kids sd' kids' rfl rfl hnew).1 hnz
+
+/-- all children, when the skipped ones carry weight zero -/
+theorem weights_sum_one_all (cfg : Cfg K) (d : Nat) (sd sd' : StratData K) (kids kids' : List (Node K))
+    (h : updNode cfg d (.strat sd kids) = .ok (.strat sd' kids'))
+    (hq : Quiet (.strat sd kids)) (hn : NoDust cfg (.strat sd kids)) (htol : 0 < cfg.tol)
+    (hmv : sd'.fixedIncome = false) (hw : sd'.value = sd'.capital + sumOf Node.value kids')
+    (hnz : isZero cfg.tol sd'.value = false) (hz : ∀ k ∈ kids', k.skipped = true → k.weight = 0) :
+    sumOf Node.weight kids' + sd'.capital / sd'.value = 1 := by
+  rw [← weights_sum_one cfg d sd sd' kids kids' h hq hn htol hmv hw hnz]
+  congr 1
+  apply sumOf_congr
+  intro k hk
+  cases hs : k.skipped
+  · simp
+  · simp [hz k hk hs]
+
+/-- the theorem applied to the example tree at its first date -/
+example : ∃ sd' kids', updNode Ex.cfg 0 Ex.tree = .ok (.strat sd' kids') ∧
+    sumOf (fun k => if k.skipped then 0 else k.weight) kids' + sd'.capital / sd'.value = 1 := by
+  obtain ⟨n', h, hp⟩ := Ex.check_ok (x := updNode Ex.cfg 0 Ex.tree)
+    (p := fun n' => match n' with
+      | .strat sd' _ => !sd'.fixedIncome && !(isZero Ex.cfg.tol sd'.value)
+      | _ => false) (by decide +kernel)
+  match n', h, hp with
+  | .strat sd' kids', h, hp =>
+    simp only [Bool.and_eq_true, Bool.not_eq_true'] at hp
+    exact ⟨sd', kids', h, weights_sum_one_newdate Ex.cfg 0 (Ex.strat "root" false 10) sd' Ex.kids kids' h
+      Ex.tree_quiet Ex.tree_noDust Ex.cfg_tol_pos hp.1 (by decide) hp.2⟩
+  | .sec _, _, hp => cases hp
+
+/-- … and are zero otherwise: when the computed total is `isZero` every child that is not skipped gets weight 0
+    (market-value: total value; fixed income: total notional) -/
+theorem weights_zero_of_isZero (cfg : Cfg K) (d : Nat) (sd sd' : StratData K) (kids kids' : List (Node K))
+    (h : updNode cfg d (.strat sd kids) = .ok (.strat sd' kids'))
+    (hz : isZero cfg.tol (if sd'.fixedIncome then stratN kids kids' else stratV sd' kids kids') = true) :
+    ∀ k' ∈ kids', k'.skipped = false → k'.weight = 0 := by
+  intro k' hk hs
+  rw [(updNode_localBal h).weights k' hk hs]
+  unfold childWeight
+  cases hfi : sd'.fixedIncome <;> simp only [hfi, Bool.false_eq_true, ↓reduceIte] at hz ⊢ <;> simp [hz]
+
+/-- a strategy with no cash and a flat security: total 0, weight 0 -/
+example : ∃ n', updNode Ex.cfg 0 (.strat (Ex.strat "z" false 0) [.sec (Ex.sec "a" .plain 0)]) = .ok n' ∧
+    (match n' with | .strat sd' [.sec s'] => sd'.value == 0 && s'.weight == 0 | _ => false) = true :=
+  Ex.check_ok (by decide +kernel)
+
+/-- example tree: weights 30/54 + 0 + 14/54 and cash 10/54 -/
+example : ∃ n', updNode Ex.cfg 0 Ex.tree = .ok n' ∧
+    (match n' with
+     | .strat sd' kids' => sumOf Node.weight kids' + sd'.capital / sd'.value == 1 && sd'.value == 54
+     | _ => false) = true :=
+  Ex.check_ok (by decide +kernel)
+
+/-! ### (6) the recorded rows hold the end-of-date state
+
+`RowsInv n`: at every node, the rows at the node's own date hold its marked state (value, notional; for a
+security also the position as of its last update) — the invariant every operation maintains, needed here
+because `update` does not rewrite rows when it is the early return / when no total moved by `TOL`.
+`RowsLen d n`: every row list is longer than `d`. -/
+
+/-- After `update(d)`: at every strategy of the tree `rValue[d] = value`, `rCash[d] = capital`,
+    `rNotl[d] = notl` and `now = d`; at every security the loop visited `rPosition[d] = position`,
+    `rValue[d] = value`, `rNotl[d] = notl` (`RowsFresh`); and the invariant is kept. -/
+theorem rows_eq_state (cfg : Cfg K) (d : Nat) (n n' : Node K) (h : updNode cfg d n = .ok n')
+    (hi : RowsInv n) (hl : RowsLen d n) : RowsFresh d n n' ∧ RowsInv n' ∧ RowsLen d n' := by
+  obtain ⟨a, b, c⟩ := updNode_rows h hi hl
+  exact ⟨c, a, b⟩
+
+/-- the top of the tree, spelled out -/
+theorem rows_eq_state_top (cfg : Cfg K) (d : Nat) (sd sd' : StratData K) (kids kids' : List (Node K))
+    (h : updNode cfg d (.strat sd kids) = .ok (.strat sd' kids'))
+    (hi : RowsInv (.strat sd kids)) (hl : RowsLen d (.strat sd kids)) :
+    sd'.rValue[d]? = some sd'.value ∧ sd'.rCash[d]? = some sd'.capital ∧ sd'.rNotl[d]? = some sd'.notl := by
+  have := (updNode_rows h hi hl).2.2
+  simp only [RowsFresh, TreeRel] at this
+  exact this.1.2
+
+/-- the example tree (fresh: `now = none` everywhere, two rows) satisfies the hypotheses at d = 0, 1 -/
+example : RowsInv Ex.tree ∧ RowsLen 1 Ex.tree := ⟨Ex.tree_rowsInv, Ex.tree_rowsLen⟩
+
+example : ∃ n', updNode Ex.cfg 1 Ex.tree = .ok n' ∧ RowsFresh 1 Ex.tree n' :=
+  let ⟨n', h, _⟩ := Ex.check_ok (x := updNode Ex.cfg 1 Ex.tree) (p := fun _ => true) (by decide +kernel)
+  ⟨n', h, (rows_eq_state Ex.cfg 1 _ _ h Ex.tree_rowsInv Ex.tree_rowsLen).1⟩
+
+example : ∃ n', updNode Ex.cfg 1 Ex.tree = .ok n' ∧
+    (match n' with
+     | .strat sd' _ => sd'.rValue[1]? == some 62 && sd'.value == 62 && sd'.rCash[1]? == some 10
+     | _ => false) = true :=
+  Ex.check_ok (by decide +kernel)
+
+/-! ### (7) the root: `updRoot`, `refresh`, and every reachable world -/
+
+/-- `root.update(d)` is `update(d)` of some tree `n0` — the root itself or, in the bankruptcy step
+    (`BankruptTree`: children updated, total negative, flag set, whole tree flattened), the liquidated
+    tree — so everything proved for `updNode` holds of its result: the balance sheet relative to `n0`
+    (`Balanced`), over all children when `n0` is quiet and dust-free (`BalancedAll`, and `Quiet` is kept),
+    and the rows (`RowsFresh`). -/
+theorem updRoot_balanced (cfg : Cfg K) (d : Nat) (w w' : World K) (h : updRoot cfg d w = .ok w') :
+    w'.stale = false ∧
+    ∃ n0, (n0 = w.root ∨ BankruptTree cfg d w n0) ∧ updNode cfg d n0 = .ok w'.root ∧
+      Balanced cfg d n0 w'.root ∧
+      (Quiet n0 → NoDust cfg n0 → BalancedAll cfg w'.root ∧ Quiet w'.root ∧ NoDust cfg w'.root) ∧
+      (RowsInv n0 → RowsLen d n0 → RowsFresh d n0 w'.root ∧ RowsInv w'.root ∧ RowsLen d w'.root) := by
+  obtain ⟨hs, n0, hn, h0⟩ := updRoot_inv h
+  refine ⟨hs, n0, h0, hn, updNode_balanced_aux hn, ?_, ?_⟩
+  · intro hq hnd
+    exact ⟨updNode_balancedAll_aux hn hq hnd, updNode_quiet hn hq hnd⟩
+  · intro hi hl
+    exact rows_eq_state cfg d n0 w'.root hn hi hl
+
+/-- ordinary date -/
+example : ∃ w', updRoot Ex.cfg 0 { root := Ex.tree, stale := true } = .ok w' ∧ (w'.root.value == 54) = true :=
+  Ex.check_ok (by decide +kernel)
+
+/-- the bankruptcy step: cash −100 against 30 of securities; after liquidation value = cash = −70 -/
+example : ∃ w', updRoot Ex.cfg 0 Ex.brokeWorld = .ok w' ∧
+    (match w'.root with
+     | .strat sd' [.sec s'] => sd'.bankrupt && sd'.value == -70 && sd'.capital == -70 && s'.position == 0
+     | _ => false) = true :=
+  Ex.check_ok (by decide +kernel)
+
+/-- when the bankruptcy step cannot fire (strategy already flagged, or fixed income) the tree is the root -/
+theorem updRoot_balanced_all (cfg : Cfg K) (d : Nat) (w w' : World K) (h : updRoot cfg d w = .ok w')
+    (hq : Quiet w.root) (hn : NoDust cfg w.root)
+    (hF : ∀ n0, BankruptTree cfg d w n0 → Quiet n0 ∧ NoDust cfg n0) :
+    BalancedAll cfg w'.root ∧ Quiet w'.root ∧ NoDust cfg w'.root := by
+  obtain ⟨_, n0, h0, _, _, hall, _⟩ := updRoot_balanced cfg d w w' h
+  rcases h0 with rfl | hb
+  · exact hall hq hn
+  · exact hall (hF n0 hb).1 (hF n0 hb).2
+
+theorem no_bankruptTree_of_flag (cfg : Cfg K) (d : Nat) (w : World K) (sd : StratData K) (kids : List (Node K))
+    (hr : w.root = .strat sd kids) (hb : sd.bankrupt = true ∨ sd.fixedIncome = true) (n0 : Node K) :
+    ¬ BankruptTree cfg d w n0 := by
+  rintro ⟨sd1, kids1, _, _, _, hroot, _, _, h1, h2, _⟩
+  rw [hr] at hroot
+  injection hroot with e1 e2
+  subst e1
+  rcases hb with hb | hb
+  · rw [hb] at h1; cases h1
+  · rw [hb] at h2; cases h2
+
+/-- a root already flagged: the step cannot fire, the all-children balance sheet holds after `root.update` -/
+example : ∃ w', updRoot Ex.cfg 0 Ex.flaggedWorld = .ok w' ∧ BalancedAll Ex.cfg w'.root :=
+  let ⟨w', h, _⟩ := Ex.check_ok (x := updRoot Ex.cfg 0 Ex.flaggedWorld) (p := fun _ => true) (by decide +kernel)
+  ⟨w', h, (updRoot_balanced_all Ex.cfg 0 _ _ h Ex.flagged_quiet Ex.flagged_noDust
+    (fun n0 hb => absurd hb (no_bankruptTree_of_flag Ex.cfg 0 _ _ _ rfl (Or.inl rfl) n0))).1⟩
+
+/-- weights at the root (no bankruptcy step: already flagged) -/
+theorem updRoot_weights_sum_one (cfg : Cfg K) (d : Nat) (w w' : World K) (sd sd' : StratData K)
+    (kids kids' : List (Node K)) (h : updRoot cfg d w = .ok w')
+    (hr : w.root = .strat sd kids) (hr' : w'.root = .strat sd' kids') (hb : sd.bankrupt = true)
+    (hq : Quiet w.root) (hn : NoDust cfg w.root) (htol : 0 < cfg.tol)
+    (hmv : sd'.fixedIncome = false) (hnew : sd.now ≠ some d) (hnz : isZero cfg.tol sd'.value = false) :
+    sumOf (fun k => if k.skipped then 0 else k.weight) kids' + sd'.capital / sd'.value = 1 := by
+  obtain ⟨_, n0, h0, hu, _⟩ := updRoot_balanced cfg d w w' h
+  rcases h0 with rfl | hbt
+  · rw [hr, hr'] at hu
+    rw [hr] at hq hn
+    exact weights_sum_one_newdate cfg d sd sd' kids kids' hu hq hn htol hmv hnew hnz
+  · exact absurd hbt (no_bankruptTree_of_flag cfg d w sd kids hr (Or.inl hb) n0)
+
+example : ∃ sd' kids' w', updRoot Ex.cfg 0 Ex.flaggedWorld = .ok w' ∧ w'.root = .strat sd' kids' ∧
+    sumOf (fun k => if k.skipped then 0 else k.weight) kids' + sd'.capital / sd'.value = 1 := by
+  obtain ⟨w', h, hp⟩ := Ex.check_ok (x := updRoot Ex.cfg 0 Ex.flaggedWorld)
+    (p := fun w' => match w'.root with
+      | .strat sd' _ => !sd'.fixedIncome && !(isZero Ex.cfg.tol sd'.value)
+      | _ => false) (by decide +kernel)
+  obtain ⟨r, st⟩ := w'
+  match r, h, hp with
+  | .strat sd' kids', h, hp =>
+    simp only [Bool.and_eq_true, Bool.not_eq_true'] at hp
+    exact ⟨sd', kids', _, h, rfl, updRoot_weights_sum_one Ex.cfg 0 _ _ _ sd' _ kids' h rfl rfl rfl
+      Ex.flagged_quiet Ex.flagged_noDust Ex.cfg_tol_pos hp.1 (by decide) hp.2⟩
+  | .sec _, _, hp => cases hp
+
+/-- `refresh`: nothing when the root is not stale, else `root.update(root.now)` -/
+theorem refresh_balanced (cfg : Cfg K) (w w' : World K) (h : refresh cfg w = .ok w') (hs : w.stale = true) :
+    ∃ d, w.root.now = some d ∧ updRoot cfg d w = .ok w' := by
+  rcases refresh_inv h with ⟨h0, _⟩ | ⟨_, d, hd, hu⟩
+  · rw [hs] at h0; cases h0
+  · exact ⟨d, hd, hu⟩
+
+/-- update, mark stale (as any operation with `update=True` does), refresh -/
+example : ∃ w', ((updRoot Ex.cfg 0 { root := Ex.tree, stale := true }).bind fun w =>
+    refresh Ex.cfg { w with stale := true }) = .ok w' ∧ (w'.root.value == 54 && !w'.stale) = true :=
+  Ex.check_ok (by decide +kernel)
+
+/-- `Quiet` is an invariant of every operation when the configuration is dust-free (`DustFree cfg`:
+    `∀ x, isZero cfg.tol x = true → x = 0`).  For the individual primitives the weaker, realistic hypothesis
+    `NoDust` (on the positions of the input tree only — e.g. whole units and `TOL ≤ 1`, `noDust_of_integer`)
+    suffices, see `quiet_updNode`, `quiet_allocNode`, …; across a whole operation the positions change in
+    between, hence the global form here. -/
+theorem quiet_stepOp (cfg : Cfg K) (hdf : DustFree cfg) (op : Op K) (w w' : World K)
+    (hq : Quiet w.root) (h : stepOp cfg op w = .ok w') : Quiet w'.root :=
+  hdf.secInv.keep_stepOp hq h
+
+/-- Every world reachable from a quiet one by any list of operations is quiet, and updating it (any date) or
+    refreshing it (when stale) yields a tree that is balanced at every strategy, over all children. -/
+theorem reachable_balanced (cfg : Cfg K) (hdf : DustFree cfg) (ops : List (Op K)) (w0 w : World K)
+    (hq : Quiet w0.root) (hrun : runOps cfg ops w0 = .ok w) :
+    Quiet w.root ∧
+    (∀ d w', updRoot cfg d w = .ok w' → BalancedAll cfg w'.root ∧ Quiet w'.root) ∧
+    (∀ w', w.stale = true → refresh cfg w = .ok w' → BalancedAll cfg w'.root ∧ Quiet w'.root) := by
+  have hqw : Quiet w.root := hdf.secInv.keep_runOps ops w0 w hq hrun
+  have hupd : ∀ d w', updRoot cfg d w = .ok w' → BalancedAll cfg w'.root ∧ Quiet w'.root := by
+    intro d w' h
+    obtain ⟨_, n0, h0, _, _, hall, _⟩ := updRoot_balanced cfg d w w' h
+    have hq0 : Quiet n0 := hdf.secInv.keep_updRoot_tree hqw h0
+    obtain ⟨a, b, _⟩ := hall hq0 (hdf.noDust.1 n0)
+    exact ⟨a, b⟩
+  refine ⟨hqw, hupd, ?_⟩
+  intro w' hs h
+  obtain ⟨d, _, hu⟩ := refresh_balanced cfg w w' h hs
+  exact hupd d w' hu
+
+/-- The realistic instance of the no-dust hypothesis: `TOL ≤ 1`, `floor`/`ceil` return whole numbers, every
+    strategy is market-value and every security trades whole units (`integer = true`, whole position) and is
+    quiet (`AllNodes MVStrat IntSec`).  Then any list of operations without a raw `transact` (i.e. `adjust`,
+    `allocate`, `flatten`, `close`, `rebalance`, `update` — what the algos use on market-value trees) keeps that
+    invariant, and updating / refreshing the final world yields a tree balanced at every strategy over all
+    children. -/
+theorem reachable_balanced_integer (cfg : Cfg K) (htol : cfg.tol ≤ 1)
+    (hfloor : ∀ x : K, IsInt (floorA x)) (hceil : ∀ x : K, IsInt (ceilA x))
+    (ops : List (Op K)) (hops : ∀ op ∈ ops, OpOK (IsInt (K := K)) op) (w0 w : World K)
+    (h0 : AllNodes MVStrat IntSec w0.root) (hrun : runOps cfg ops w0 = .ok w) :
+    AllNodes MVStrat IntSec w.root ∧ Quiet w.root ∧ NoDust cfg w.root ∧
+    (∀ d w', updRoot cfg d w = .ok w' → BalancedAll cfg w'.root ∧ AllNodes MVStrat IntSec w'.root) ∧
+    (∀ w', w.stale = true → refresh cfg w = .ok w' → BalancedAll cfg w'.root ∧ AllNodes MVStrat IntSec w'.root) := by
+  have hT := treeInv_int (cfg := cfg) htol hfloor hceil
+  have hR : (∀ q : K, IsInt q) ∨ (∀ sd : StratData K, MVStrat sd → sd.fixedIncome = false) := Or.inr (fun _ h => h)
+  have hw : AllNodes MVStrat IntSec w.root := hT.keep_runOps hR ops w0 w hops h0 hrun
+  have hupd : ∀ d w', updRoot cfg d w = .ok w' → BalancedAll cfg w'.root ∧ AllNodes MVStrat IntSec w'.root := by
+    intro d w' h
+    obtain ⟨_, n0, hx, _, _, hall, _⟩ := updRoot_balanced cfg d w w' h
+    have hn0 := hT.keep_updRoot_tree hw hx
+    obtain ⟨hq0, hd0⟩ := IntSec.quiet_noDust (cfg := cfg) htol hn0
+    exact ⟨(hall hq0 hd0).1, hT.keep_updRoot hw h⟩
+  obtain ⟨hq, hd⟩ := IntSec.quiet_noDust (cfg := cfg) htol hw
+  refine ⟨hw, hq, hd, hupd, ?_⟩
+  intro w' hs h
+  obtain ⟨d, _, hu⟩ := refresh_balanced cfg w w' h hs
+  exact hupd d w' hu
+
+/-- over ℚ: `TOL = 1/2`, `floor`/`ceil` are whole; the example tree made all-plain, and a run of operations -/
+example : Ex.cfg.tol ≤ 1 ∧ (∀ x : Rat, IsInt (floorA x)) ∧ (∀ x : Rat, IsInt (ceilA x)) ∧
+    AllNodes (MVStrat (K := Rat)) IntSec Ex.treeInt :=
+  ⟨Ex.cfg_tol_le_one, Ex.floor_isInt, Ex.ceil_isInt, Ex.treeInt_allNodes⟩
+
+example : ∃ w, runOps Ex.cfg Ex.ops { root := Ex.treeInt, stale := true } = .ok w ∧
+    (w.root.value == 54) = true :=
+  Ex.check_ok (by decide +kernel)
+
+/-- the theorem applied: the final world of the run is quiet, dust-free, whole-unit -/
+example : ∃ w, runOps Ex.cfg Ex.ops { root := Ex.treeInt, stale := true } = .ok w ∧
+    AllNodes MVStrat IntSec w.root ∧ Quiet w.root ∧ NoDust Ex.cfg w.root :=
+  let ⟨w, h, _⟩ := Ex.check_ok (x := runOps Ex.cfg Ex.ops { root := Ex.treeInt, stale := true })
+    (p := fun _ => true) (by decide +kernel)
+  let t := reachable_balanced_integer Ex.cfg Ex.cfg_tol_le_one Ex.floor_isInt Ex.ceil_isInt Ex.ops Ex.ops_ok _ w
+    Ex.treeInt_allNodes h
+  ⟨w, h, t.1, t.2.1, t.2.2.1⟩
+
+/-- `DustFree` holds for `TOL = 0` -/
+example : DustFree Ex.cfg0 := Ex.cfg0_dustFree
+
+/-- a run: update, buy into `a`, rebalance `a` to 50%, close `a`, flatten, update the next date -/
+example : ∃ w, runOps Ex.cfg0 Ex.ops { root := Ex.tree, stale := true } = .ok w ∧ (w.root.value == 54) = true :=
+  Ex.check_ok (by decide +kernel)
+
+example : ∃ w, runOps Ex.cfg0 Ex.ops { root := Ex.tree, stale := true } = .ok w ∧ Quiet w.root :=
+  let ⟨w, h, _⟩ := Ex.check_ok (x := runOps Ex.cfg0 Ex.ops { root := Ex.tree, stale := true }) (p := fun _ => true)
+    (by decide +kernel)
+  ⟨w, h, (reachable_balanced Ex.cfg0 Ex.cfg0_dustFree Ex.ops _ w Ex.tree_quiet h).1⟩
+
+/-- The rows part of the statement is FALSE at the root in a `TOL`-sized corner of the bankruptcy step: the
+    update is redone on the liquidated tree *on the same date*, so it is no longer a new date and the write of
+    value / row is skipped when the liquidated total is within `TOL` of the value stored on the previous date.
+    Witness (tol = 1/2): value −2/5 on date 0 (no bankruptcy: `isZero`), total −3/5 on date 1 → bankrupt,
+    liquidated, re-updated: cash −3/5 but stored value still −2/5 and `rValue[1] = 0`.  (`Balanced` holds —
+    the difference 1/5 is below `TOL` — but not with equality although the date is new, and `rows_eq_state`'s
+    invariant `RowsInv` is broken at the root.) -/
+theorem updRoot_bankrupt_rows_counterexample :
+    ∃ w w' sd' s', updRoot Ex.cfg 0 Ex.tinyWorld = .ok w ∧ updRoot Ex.cfg 1 w = .ok w' ∧
+      w'.root = .strat sd' [.sec s'] ∧ sd'.bankrupt = true ∧ sd'.now = some 1 ∧ s'.position = 0 ∧
+      sd'.capital = -3/5 ∧ sd'.value = -2/5 ∧ sd'.rValue[1]? = some 0 := by
+  have h : Ex.check ((updRoot Ex.cfg 0 Ex.tinyWorld).bind fun w => (updRoot Ex.cfg 1 w).map fun w' => (w, w'))
+      (fun p => match p.2.root with
+        | .strat sd' [.sec s'] => sd'.bankrupt && sd'.now == some 1 && s'.position == 0 && sd'.capital == -3/5 &&
+            sd'.value == -2/5 && sd'.rValue[1]? == some 0
+        | _ => false) = true := by decide +kernel
+  obtain ⟨⟨w, w'⟩, hr, hp⟩ := Ex.check_ok h
+  obtain ⟨w1, hw1, hr⟩ := Except.bind_eq_ok hr
+  obtain ⟨w2, hw2, hr⟩ := Except.map_eq_ok hr
+  cases hr
+  clear h
+  obtain ⟨r, st⟩ := w'
+  simp only at hp
+  split at hp
+  · simp only [Bool.and_eq_true, beq_iff_eq] at hp
+    obtain ⟨⟨⟨⟨⟨h1, h2⟩, h3⟩, h4⟩, h5⟩, h6⟩ := hp
+    exact ⟨w, _, _, _, hw1, hw2, rfl, h1, h2, h3, h4, h5, h6⟩
+  · cases hp
+
+/-! ### every security's value is position × price × multiplier
+
+`SecMarked s`: `value = lastPos × price × mult` (0 when the price is missing) — kept by every operation
+(`secInv_marked`), since `transact` moves the position but neither the value nor `lastPos`. -/
+
+/-- ANY `update` of a marked security (early return or not) leaves it marked at its current position -/
+theorem secUpdate_marks_any (cfg : Cfg K) (d : Nat) (s s' : SecData K) (h : secUpdate cfg d s = .ok s')
+    (hm : SecMarked s) :
+    (∀ p, s'.price = some p → s'.value = s'.position * p * s'.mult) ∧ (s'.price = none → s'.value = 0) :=
+  (secUpdate_marked h hm).2.1
+
+example : SecMarked (Ex.sec "a" .plain 3) := SecMarked.of_noPrice rfl (by decide +kernel)
+
+/-- after `update` of a quiet, dust-free, marked tree EVERY security (visited or skipped) has
+    `value = position × price × multiplier` -/
+theorem updNode_marks_all (cfg : Cfg K) (d : Nat) (n n' : Node K) (h : updNode cfg d n = .ok n')
+    (hm : AllSecs SecMarked n) (hq : Quiet n) (hn : NoDust cfg n) :
+    AllSecs SecMarkedPos n' ∧ AllSecs SecMarked n' :=
+  ⟨updNode_markedPos h hm hq hn, (secInv_marked cfg).keep_updNode.1 n n' hm h⟩
+
+/-- `SecMarked` holds at every security of every reachable world -/
+theorem reachable_marked (cfg : Cfg K) (ops : List (Op K)) (w0 w : World K)
+    (hm : AllSecs SecMarked w0.root) (hrun : runOps cfg ops w0 = .ok w) : AllSecs SecMarked w.root :=
+  (secInv_marked cfg).keep_runOps ops w0 w hm hrun
+
+example : ∃ w, runOps Ex.cfg Ex.ops { root := Ex.tree, stale := true } = .ok w ∧ AllSecs SecMarked w.root :=
+  let ⟨w, h, _⟩ := Ex.check_ok (x := runOps Ex.cfg Ex.ops { root := Ex.tree, stale := true }) (p := fun _ => true)
+    (by decide +kernel)
+  ⟨w, h, reachable_marked Ex.cfg Ex.ops _ w Ex.tree_marked h⟩
+
+/-- the example tree is marked (all values 0 with `lastPos = 0`); after the update every value is the mark -/
+example : ∃ n', updNode Ex.cfg 0 Ex.tree = .ok n' ∧ AllSecs SecMarkedPos n' :=
+  let ⟨n', h⟩ := Ex.tree_upd0
+  ⟨n', h, (updNode_marks_all Ex.cfg 0 _ _ h Ex.tree_marked Ex.tree_quiet Ex.tree_noDust).1⟩
 
 end Bt.C01
